@@ -1,5 +1,8 @@
 import Pyunicorn.Lemmas.Coupling
 import Pyunicorn.Lemmas.CouplingStat
+import Pyunicorn.Lemmas.Coupling2
+import Pyunicorn.Lemmas.CouplingQuantile
+import Pyunicorn.Generated.ArithC10
 /-!
 # C10 — Similarity and coupling estimates equal reference statistics
 
@@ -492,5 +495,339 @@ theorem bincount_hist_counts (s0 s1 : Nat → Nat) (T base a b : Nat) (ha : a < 
     exact ⟨this.2, this.1⟩
   · intro h
     rw [h.1, h.2, Nat.mul_comm, Nat.add_comm]
+
+
+/-! # Round 2 -/
+
+/-! ## `_test_mutual_information_fast`: layout of the result matrix -/
+
+/-- every off-diagonal cell `mi[a*N + b]` (`a ≠ b`) receives the value of the ordered pair
+`(original a, surrogate b)` — the matrix is **not** mirrored, unlike `_mutual_information` -/
+theorem tmi_matrix_entry {α : Type} (zero : α) (val : Nat → Nat → α) (N a b : Nat)
+    (ha : a < N) (hb : b < N) (hab : a ≠ b) : tmiFlat zero val N N (a * N + b) = val a b :=
+  tmiFlat_entry zero val N N a b (Nat.le_refl _) ha hb hab
+
+/-- … and the diagonal keeps its initial zero -/
+theorem tmi_matrix_diag {α : Type} (zero : α) (val : Nat → Nat → α) (N a : Nat) (ha : a < N) :
+    tmiFlat zero val N N (a * N + a) = zero :=
+  tmiFlat_diag zero val N N a ha
+
+example : (List.range 9).map (tmiFlat 0 (fun i j => i * 3 + j + 1) 3 3) = [0, 2, 3, 4, 0, 6, 7, 8, 0] := by
+  decide
+
+/-! ## compiled vs. pure-Python `CouplingAnalysis` -/
+
+/-- **alternative implementations agree, lags `≤ 0`.**  Entry `[t, i, j]`, `t ≤ tau_max`, of
+`CouplingAnalysisPurePython.cross_correlation(tau_max, 'all')` on `T` samples is entry
+`[j, i, tau_max - t]` of the compiled `CouplingAnalysis.cross_correlation` on the first
+`T - tau_max` samples. -/
+theorem pure_eq_compiled_back (x : Nat → Nat → Rat) (T tauMax t i j : Nat) (ht : t ≤ tauMax) :
+    pureXcorrSq x T tauMax t i j = xcorrSq x (T - tauMax) tauMax j i (tauMax - t) := by
+  unfold pureXcorrSq xcorrSq
+  rw [pearson_symm]
+  have e1 : T - 2 * tauMax = T - tauMax - tauMax := by omega
+  have e2 : tauMax - (tauMax - t) = t := by omega
+  rw [e1, e2]
+
+/-- **alternative implementations agree, lags `≥ 0`.**  Entry `[t, i, j]`, `tau_max ≤ t ≤ 2 tau_max`,
+of the pure-Python result is entry `[j, i, t - tau_max]` of the compiled class on the first
+`T - tau_max` samples of the **time-reversed** data. -/
+theorem pure_eq_compiled_fwd (x : Nat → Nat → Rat) (T tauMax t i j : Nat) (h1 : tauMax ≤ t)
+    (h2 : t ≤ 2 * tauMax) :
+    pureXcorrSq x T tauMax t i j =
+      xcorrSq (fun i s => x i (T - 1 - s)) (T - tauMax) tauMax j i (t - tauMax) := by
+  unfold pureXcorrSq xcorrSq
+  rw [pearson_symm (T - tauMax - tauMax)]
+  have e1 : T - tauMax - tauMax = T - 2 * tauMax := by omega
+  rw [e1, ← pearsonSq_reverse]
+  apply pearsonSq_congr
+  · intro k hk
+    have : tauMax + (T - 2 * tauMax - 1 - k) = T - 1 - (tauMax + k) := by omega
+    rw [this]
+  · intro k hk
+    have : t + (T - 2 * tauMax - 1 - k) = T - 1 - (tauMax - (t - tauMax) + k) := by omega
+    rw [this]
+
+/-- the zero-lag slice `t = tau_max` of the pure-Python result is symmetric -/
+theorem pure_lag0_symm (x : Nat → Nat → Rat) (T tauMax i j : Nat) :
+    pureXcorrSq x T tauMax tauMax i j = pureXcorrSq x T tauMax tauMax j i := by
+  unfold pureXcorrSq; exact pearson_symm _ _ _
+
+/-- **pure-Python `'max'` mode**: `corrmat[0]` is `|c a|` and `corrmat[1]` is `a - tau_max`
+where `a ≤ 2 tau_max` is the *least* window index at which `|c|` is maximal (the most negative
+lag wins ties; all-zero → `(0, -tau_max)`). -/
+theorem pure_max_entry (c : Nat → Rat) (tauMax : Nat) :
+    ∃ a, a ≤ 2 * tauMax ∧ pureMaxEntry c tauMax = (rabs (c a), (a : Int) - (tauMax : Int)) ∧
+      (∀ t, t ≤ 2 * tauMax → rabs (c t) ≤ rabs (c a)) ∧
+      (∀ t, t < a → rabs (c t) < rabs (c a)) := by
+  obtain ⟨a, ha, hst, hmax, hfirst⟩ := absmaxScan_inv c (2 * tauMax)
+  refine ⟨a, ha, ?_, hmax, hfirst⟩
+  unfold pureMaxEntry
+  simp only [pureMaxScan_eq, hst]
+
+/-- … and the compiled `'max'` scan and the pure-Python one select the same index and the same
+absolute value on the same sequence -/
+theorem pure_max_agrees (c : Nat → Rat) (n : Nat) :
+    pureMaxScan c n = (rabs (absmaxScan c n).1, (absmaxScan c n).2) := pureMaxScan_eq c n
+
+/-- **pure-Python `'sum'` mode**: `corrmat[0]` sums `|c|` over the windows `t ≥ tau_max`,
+`corrmat[1]` over `t ≤ tau_max` (both include the zero-lag window) -/
+theorem pure_sum_entry (c : Nat → Rat) (tauMax : Nat) :
+    pureSumScan c tauMax (2 * tauMax + 1) =
+      (sumTo (tauMax + 1) (fun k => rabs (c (tauMax + k))), sumTo (tauMax + 1) (fun t => rabs (c t))) := by
+  have e : 2 * tauMax + 1 = tauMax + 1 + tauMax := by omega
+  rw [e]; exact pureSumScan_high c tauMax tauMax
+
+example : pureMaxEntry (fun t => [1, -3, 3, 2, 0].getD t 0) 2 = (3, -1) := by decide
+example : pureSumScan (fun t => [1, -3, 3, 2, 0].getD t 0) 2 5 = (5, 7) := by decide +kernel
+
+/-! ## Gaussian estimators: partial correlation of residual rows -/
+
+/-- **no negative slice start**: every node of `XYZ` reaches back at most `max_lag = tau_max + past`
+samples, so `data[max_lag + lag : T + lag]` never starts below `0` for `tau ≤ tau_max` -/
+theorem it_window_in_range (mit : Bool) (i j tau past tauMax : Nat) (ht : tau ≤ tauMax)
+    (node : Nat × Nat) (h : node ∈ itNodes mit i j tau past) : node.2 ≤ tauMax + past := by
+  have := itNodes_lag_le mit i j tau past node h; omega
+
+/-- number of rows of `array`: `dim = 2 + past` (`'ity'`) or `2 + 2·past` (`'mit'`) -/
+theorem it_dim (mit : Bool) (i j tau past : Nat) :
+    (itNodes mit i j tau past).length = 2 + past + (if mit then past else 0) :=
+  itNodes_length mit i j tau past
+
+/-- **Gaussian MI is the Pearson case**: without confounds the estimate is the (signed square of
+the) correlation of the two rows -/
+theorem gauss_mi_is_pearson (n : Nat) (r : Nat → Nat → Rat) :
+    parCorrSqG (fun a b => covTo n (r a) (r b)) [] 0 1 = pearsonSq n (r 0) (r 1) := rfl
+
+/-- the Gram matrix of centred rows (the `G` the estimators use) is symmetric: the hypothesis
+`hG` of the next theorems holds for it -/
+theorem cov_gram_symm (n : Nat) (r : Nat → Nat → Rat) (a b : Nat) :
+    (fun a b => covTo n (r a) (r b)) a b = (fun a b => covTo n (r a) (r b)) b a :=
+  covTo_comm n (r a) (r b)
+
+/-- **residuals are orthogonal to every confound** (confounds linearly independent) -/
+theorem residual_orthogonal (G : Nat → Nat → Rat) (hG : ∀ a b, G a b = G b a) (zs : List Nat)
+    (hp : Pivots G zs) (a z : Nat) (hz : z ∈ zs) : pcovG G zs a z = 0 :=
+  pcovG_confound_zero G hG zs hp a z hz
+
+/-- the partial correlation is **symmetric** in the two variables -/
+theorem parCorr_symm (G : Nat → Nat → Rat) (hG : ∀ a b, G a b = G b a) (zs : List Nat) (a b : Nat) :
+    parCorrSqG G zs a b = parCorrSqG G zs b a := by
+  unfold parCorrSqG
+  simp only [pcovG_symm G hG zs b a]
+  by_cases h : pcovG G zs a a = 0 ∨ pcovG G zs b b = 0
+  · rw [if_pos h, if_pos h.symm]
+  · rw [if_neg h, if_neg (fun e => h e.symm), mul_comm (pcovG G zs b b)]
+
+/-- **standardisation / affine images do not matter**: rescaling row `d` by `s d ≠ 0` (the code
+divides by the standard deviation; an affine image `a·x + b` of a series rescales its centred
+rows by `a`) changes the partial correlation by `sign(s a · s b)` only -/
+theorem parCorr_scale_invariant (G : Nat → Nat → Rat) (s : Nat → Rat) (hs : ∀ d, s d ≠ 0)
+    (zs : List Nat) (a b : Nat) :
+    parCorrSqG (fun a b => s a * s b * G a b) zs a b = sgn (s a * s b) * parCorrSqG G zs a b := by
+  unfold parCorrSqG
+  simp only [pcovG_scale G s hs]
+  have ha := hs a
+  have hb := hs b
+  by_cases h : pcovG G zs a a = 0 ∨ pcovG G zs b b = 0
+  · have h' : s a * s a * pcovG G zs a a = 0 ∨ s b * s b * pcovG G zs b b = 0 := by
+      rcases h with h | h
+      · left; rw [h]; ring
+      · right; rw [h]; ring
+    rw [if_pos h, if_pos h']; ring
+  · have hx : pcovG G zs a a ≠ 0 := fun e => h (Or.inl e)
+    have hy : pcovG G zs b b ≠ 0 := fun e => h (Or.inr e)
+    have h' : ¬ (s a * s a * pcovG G zs a a = 0 ∨ s b * s b * pcovG G zs b b = 0) := by
+      intro e
+      rcases e with e | e
+      · exact hx ((mul_eq_zero.mp e).resolve_left (mul_ne_zero ha ha))
+      · exact hy ((mul_eq_zero.mp e).resolve_left (mul_ne_zero hb hb))
+    rw [if_neg h, if_neg h']
+    by_cases hcv : pcovG G zs a b = 0
+    · rw [hcv]; simp
+    · rw [sgn_mul (mul_ne_zero ha hb) hcv]
+      field_simp
+
+/-- linear independence of the confounds is not affected by the rescaling either -/
+theorem pivots_scale_invariant (G : Nat → Nat → Rat) (s : Nat → Rat) (hs : ∀ d, s d ≠ 0)
+    (zs : List Nat) : Pivots (fun a b => s a * s b * G a b) zs ↔ Pivots G zs :=
+  pivots_scale G s hs zs
+
+example : itNodes true 0 1 2 2 = [(0, 2), (1, 0), (1, 1), (1, 2), (0, 3), (0, 4)] := by decide
+example : pcovG (fun a b => [[4, 2, 2], [2, 3, 1], [2, 1, 2]].getD a [] |>.getD b (0 : Rat)) [2] 0 1 = 1 := by
+  decide +kernel
+
+/-! ## `PartialCorrelationClimateNetwork`: `- C_inv / sqrt(|outer(diag, diag)|)` -/
+
+/-- symmetric for a symmetric inverse -/
+theorem normInv_symm (P : Nat → Nat → Rat) (hP : ∀ a b, P a b = P b a) (i j : Nat) :
+    normInvSq P i j = normInvSq P j i := by
+  unfold normInvSq
+  rw [hP j i, mul_comm (P j j)]
+
+/-- the diagonal is `-1` by construction (positive diagonal of the inverse) -/
+theorem normInv_diag (P : Nat → Nat → Rat) (i : Nat) (h : 0 < P i i) : normInvSq P i i = -1 := by
+  unfold normInvSq
+  have hpos : 0 < P i i * P i i := mul_pos h h
+  have hr : rabs (P i i * P i i) = P i i * P i i := by
+    unfold rabs; rw [if_neg (not_lt.mpr (le_of_lt hpos))]
+  have hs : sgn (-(P i i)) = -1 := by unfold sgn; rw [if_pos (by linarith)]
+  simp only [hr, hs]
+  rw [if_neg (ne_of_gt hpos)]
+  field_simp
+
+/-- **correlation vs. covariance matrix**: if `C' = D C D` with a positive diagonal `D = diag(s)`
+then `C'⁻¹ = D⁻¹ C⁻¹ D⁻¹`, and the normalised inverse is the same — the partial correlation may
+be computed from the inverse *covariance* matrix (rational) instead of the inverse *correlation*
+matrix (square roots), which is what the exact correspondence does -/
+theorem normInv_scale_invariant (P : Nat → Nat → Rat) (s : Nat → Rat) (hs : ∀ d, 0 < s d) (i j : Nat) :
+    normInvSq (fun a b => P a b / (s a * s b)) i j = normInvSq P i j := by
+  unfold normInvSq
+  have hi := hs i
+  have hj := hs j
+  have hij : 0 < s i * s j := mul_pos hi hj
+  have hden : 0 < (s i * s i) * (s j * s j) := mul_pos (mul_pos hi hi) (mul_pos hj hj)
+  have e1 : P i i / (s i * s i) * (P j j / (s j * s j)) = P i i * P j j / ((s i * s i) * (s j * s j)) := by
+    field_simp
+  have hr : rabs (P i i * P j j / ((s i * s i) * (s j * s j))) =
+      rabs (P i i * P j j) / ((s i * s i) * (s j * s j)) := by
+    unfold rabs
+    by_cases hn : P i i * P j j < 0
+    · rw [if_pos hn, if_pos (div_neg_of_neg_of_pos hn hden)]; ring
+    · rw [if_neg hn, if_neg (not_lt.mpr (div_nonneg (not_lt.mp hn) (le_of_lt hden)))]
+  have hsg : sgn (-(P i j / (s i * s j))) = sgn (-(P i j)) := by
+    unfold sgn
+    by_cases hn : -(P i j) < 0
+    · have : -(P i j / (s i * s j)) < 0 := by
+        rw [← neg_div]; exact div_neg_of_neg_of_pos hn hij
+      rw [if_pos hn, if_pos this]
+    · have : ¬ -(P i j / (s i * s j)) < 0 := by
+        rw [← neg_div]; exact not_lt.mpr (div_nonneg (not_lt.mp hn) (le_of_lt hij))
+      rw [if_neg hn, if_neg this]
+  simp only [e1, hr, hsg]
+  by_cases hd : rabs (P i i * P j j) = 0
+  · rw [if_pos hd, if_pos (by rw [hd]; simp)]
+  · have : rabs (P i i * P j j) / ((s i * s i) * (s j * s j)) ≠ 0 :=
+      div_ne_zero hd (ne_of_gt hden)
+    rw [if_neg hd, if_neg this]
+    field_simp
+
+example : normInvSq (fun a b => [[2, -1], [-1, 2]].getD a [] |>.getD b (0 : Rat)) 0 1 = 1 / 4 := by
+  decide +kernel
+example : (gjInverse (fun a b => [[2, 1], [1, 2]].getD a [] |>.getD b (0 : Rat)) 2).map
+    (fun P => [P 0 0, P 0 1, P 1 0, P 1 1]) = some [2 / 3, -1 / 3, -1 / 3, 2 / 3] := by decide +kernel
+
+/-! ## ranks: the average ranks sum to `n(n+1)/2` -/
+
+/-- `Σ_i 2·rank_i = n(n+1)` whatever the ties: the ranks `rank_time_series` hands to `corrcoef`
+have the mean `(n+1)/2` of a permutation of `1..n` -/
+theorem rank_sum (n : Nat) (x : Nat → Rat) : sumNatTo n (rank2 n x) = n * (n + 1) := by
+  have hswap : sumNatTo n (fun i => countTo n (fun j => decide (x j < x i))) =
+      sumNatTo n (fun i => countTo n (fun j => decide (x i < x j))) :=
+    sumNatTo_countTo_swap n n (fun i j => decide (x j < x i))
+  have htri : sumNatTo n (fun i => countTo n (fun j => decide (x j < x i)) +
+      countTo n (fun j => decide (x j = x i)) + countTo n (fun j => decide (x i < x j))) = n * n := by
+    rw [sumNatTo_congr (g := fun _ => n) (fun i _ => countTo_tri n x i), sumNatTo_const]
+  rw [sumNatTo_add, sumNatTo_add] at htri
+  have hr : sumNatTo n (rank2 n x) =
+      sumNatTo n (fun i => 2 * countTo n (fun j => decide (x j < x i)) +
+        countTo n (fun j => decide (x j = x i)) + 1) := rfl
+  have h2 : sumNatTo n (fun i => 2 * countTo n (fun j => decide (x j < x i))) =
+      sumNatTo n (fun i => countTo n (fun j => decide (x j < x i))) +
+      sumNatTo n (fun i => countTo n (fun j => decide (x j < x i))) := by
+    rw [← sumNatTo_add]; apply sumNatTo_congr; intro i _; omega
+  rw [hr, sumNatTo_add, sumNatTo_add, h2, sumNatTo_const]
+  have : n * (n + 1) = n * n + n := by ring
+  rw [this]
+  omega
+
+example : sumNatTo 4 (rank2 4 (fun t => [3, 1, 1, 2].getD t 0)) = 4 * 5 := by decide
+
+
+/-! ## `_quantile_bin_array` -/
+
+/-- every sample of the row gets a symbol in `0 … #edges - 1`, there are at most `bins` edges
+(so the symbols fit the `base × base` histogram of `bincount_hist`), and the symbol is
+monotone in the sample value -/
+theorem qbin_range (row : List Rat) (bins : Nat) (hb : 1 ≤ bins) (x : Rat) (hx : x ∈ row) :
+    0 ≤ quantileSym (quantileEdges row bins) x ∧
+      quantileSym (quantileEdges row bins) x < (bins : Int) := by
+  have hr : row ≠ [] := fun e => by rw [e] at hx; cases hx
+  have h1 := quantileSym_nonneg row bins x hx
+  have h2 := quantileSym_lt (quantileEdges row bins) x
+  have h3 := quantileEdges_length_le row bins hb hr
+  omega
+
+theorem qbin_monotone (row : List Rat) (bins : Nat) (x y : Rat) (h : x ≤ y) :
+    quantileSym (quantileEdges row bins) x ≤ quantileSym (quantileEdges row bins) y :=
+  quantileSym_mono _ x y h
+
+/-- tied samples share their symbol (no order dependence, unlike a rank-based binning) -/
+theorem qbin_ties_share (row : List Rat) (bins : Nat) (x y : Rat) (h : x = y) :
+    quantileSym (quantileEdges row bins) x = quantileSym (quantileEdges row bins) y := by rw [h]
+
+example : quantileBinRow [5, 1, 4, 2, 3, 0] 3 = [2, 0, 2, 1, 1, 0] := by decide +kernel
+
+/-! ## index arithmetic regenerated from the current source (`translate/arith_C10.json`) -/
+
+open Pyunicorn.Generated.ArithC10 in
+/-- **`cross_correlation` windows**: for `0 ≤ t ≤ tau_max ≤ T` the slice `data[t : t + corr_range]`
+starts at `t` (the model's `windows x t i k = x i (t + k)`), has `corr_range = T - tau_max`
+samples (the model's window length) and ends inside the data; the slice the mean is taken of
+is the same one -/
+theorem arith_xcorr_window (T tau_max t : Int) (h0 : 0 ≤ t) (h1 : t ≤ tau_max) (_h2 : tau_max ≤ T) :
+    xcorrWinLo t (xcorrRange T tau_max) = t ∧
+      xcorrWinHi t (xcorrRange T tau_max) - xcorrWinLo t (xcorrRange T tau_max) = T - tau_max ∧
+      xcorrWinHi t (xcorrRange T tau_max) ≤ T ∧ 0 ≤ xcorrWinLo t (xcorrRange T tau_max) ∧
+      xcorrMeanWinLo t (xcorrRange T tau_max) = xcorrWinLo t (xcorrRange T tau_max) ∧
+      xcorrMeanWinHi t (xcorrRange T tau_max) = xcorrWinHi t (xcorrRange T tau_max) := by
+  unfold xcorrWinLo xcorrWinHi xcorrMeanWinLo xcorrMeanWinHi xcorrRange
+  omega
+
+open Pyunicorn.Generated.ArithC10 in
+/-- **`mutual_information` rows**: node `(var, lag = -tau)`, `0 ≤ tau ≤ tau_max ≤ T`: the slice
+`data[max_lag + lag : T + lag]` starts at `tau_max - tau ≥ 0` (no wrap-around of a negative
+index), ends at `T - tau ≤ T` and has exactly the `T - max_lag` samples of a row of `array` -/
+theorem arith_mi_window (T tau_max tau : Int) (h0 : 0 ≤ tau) (h1 : tau ≤ tau_max) (_h2 : tau_max ≤ T) :
+    miWinLo (miMaxLag tau_max) (-tau) T = tau_max - tau ∧ 0 ≤ miWinLo (miMaxLag tau_max) (-tau) T ∧
+      miWinHi (miMaxLag tau_max) (-tau) T ≤ T ∧
+      miWinHi (miMaxLag tau_max) (-tau) T - miWinLo (miMaxLag tau_max) (-tau) T =
+        miRowLen (miMaxLag tau_max) T := by
+  unfold miWinLo miWinHi miRowLen miMaxLag
+  omega
+
+open Pyunicorn.Generated.ArithC10 in
+/-- **`information_transfer` rows**: every node of `XYZ` (`it_window_in_range`: it reaches back
+`l ≤ tau_max + past` samples) is cut from `data[max_lag - l : T - l]`: inside the data, `T - max_lag`
+samples, start `max_lag - l` as in the model's `itRow` -/
+theorem arith_it_window (T tau_max past l : Int) (h0 : 0 ≤ l) (h1 : l ≤ tau_max + past) :
+    itWinLo (itMaxLag tau_max past) (-l) T = tau_max + past - l ∧
+      0 ≤ itWinLo (itMaxLag tau_max past) (-l) T ∧ itWinHi (itMaxLag tau_max past) (-l) T ≤ T ∧
+      itWinHi (itMaxLag tau_max past) (-l) T - itWinLo (itMaxLag tau_max past) (-l) T =
+        itRowLen (itMaxLag tau_max past) T := by
+  unfold itWinLo itWinHi itRowLen itMaxLag
+  omega
+
+open Pyunicorn.Generated.ArithC10 in
+/-- `bin_edge = ceil(T / bins)` of the source is the model's `binEdge` -/
+theorem arith_bin_edge (T bins : Nat) (hb : 1 ≤ bins) :
+    qbinEdge (T : Int) (bins : Int) = (binEdge T bins : Int) := by
+  unfold qbinEdge ceilDiv binEdge
+  have h : ((T : Int) + (bins : Int) - 1) = ((T + bins - 1 : Nat) : Int) := by omega
+  rw [h, Int.natCast_ediv]
+
+open Pyunicorn.Generated.ArithC10 in
+/-- pure-Python class: window length `total_time - 2 tau_max` (the model's `pureXcorrSq`), windows
+end inside the data for `t ≤ 2 tau_max`, and the reported lag is `argmax - tau_max`
+(`pureMaxEntry`) -/
+theorem arith_pure (total_time tau_max t : Int) (_h0 : 0 ≤ t) (h1 : t ≤ 2 * tau_max) :
+    pureWinHi t (pureRange total_time tau_max) ≤ total_time ∧
+      pureWinHi t (pureRange total_time tau_max) - t = total_time - 2 * tau_max := by
+  unfold pureWinHi pureRange
+  omega
+
+open Pyunicorn.Generated.ArithC10 in
+theorem arith_pure_lag (c : Nat → Rat) (tauMax : Nat) :
+    (pureMaxEntry c tauMax).2 = pureLagOut ((pureMaxScan c (2 * tauMax + 1)).2 : Int) (tauMax : Int) := rfl
 
 end Pyunicorn.Coupling
